@@ -26,7 +26,9 @@ EXTENDS Naturals, Sequences, FiniteSets, TLC, Json
 
 CONSTANTS Msgs,        \* the client's message sequence, e.g. <<"N", "R", "N">>  (N = didOpen/didChange, R = a request)
           NFiles,      \* files a diagnostics task publishes for
-          Variant
+          Variant,
+          SplitEnd     \* TRUE: the closure's return (drop of snapshot and mutex guard) and run_task's end report are two steps, as in the
+                       \* code; FALSE: one step (coarser, fewer interleavings: used to enumerate schedules, whose points are the hooks)
 
 Tasks == 1..Len(Msgs)                    \* every message spawns exactly one task
 
@@ -116,17 +118,23 @@ TPublish(t) == /\ tpc[t] = "want_pub" /\ tleft[t] > 0 /\ pubLock \in {0, t}
                /\ pubLock' = t /\ tleft' = [tleft EXCEPT ![t] = @ - 1]
                /\ pubSeq' = Append(pubSeq, <<tver[t], trev[t]>>) /\ Log(Who(t), "publish")
                /\ UNCH(<<inbox, mpc, vfsW, vfsR, snaps, tpc, tkind, nextTask, rev, trev, tver, dver, answered, processed>>)
+\* the loop over the files to publish for ends   (no hook: internal; the trace specification completes a run after any number of publishes)
 TPubDone(t) == /\ tpc[t] = "want_pub" /\ tleft[t] = 0
                /\ tpc' = [tpc EXCEPT ![t] = "finish"]
                /\ UNCH(<<inbox, mpc, vfsW, vfsR, snaps, pubLock, tkind, tleft, nextTask, rev, trev, tver, dver, pubSeq, answered, processed, sched>>)
-\* the closure returned: snapshot (and mutex guard) dropped          hook task.end
-TEnd(t) == /\ tpc[t] = "finish"
-           /\ tpc' = [tpc EXCEPT ![t] = "done"] /\ snaps' = snaps \ {t}
-           /\ pubLock' = IF pubLock = t THEN 0 ELSE pubLock
+\* the closure returns: the snapshot and the mutex guard it owns are dropped    (no hook: run_task reports the end afterwards)
+TDrop(t) == /\ SplitEnd /\ tpc[t] = "finish"
+            /\ tpc' = [tpc EXCEPT ![t] = "dropped"] /\ snaps' = snaps \ {t}
+            /\ pubLock' = IF pubLock = t THEN 0 ELSE pubLock
+            /\ UNCH(<<inbox, mpc, vfsW, vfsR, tkind, tleft, nextTask, rev, trev, tver, dver, pubSeq, answered, processed, sched>>)
+\* run_task reports the end of the task; the response (if any) is on its way        hook task.end
+TEnd(t) == /\ tpc[t] = IF SplitEnd THEN "dropped" ELSE "finish"
+           /\ tpc' = [tpc EXCEPT ![t] = "done"]
+           /\ snaps' = snaps \ {t} /\ pubLock' = IF pubLock = t THEN 0 ELSE pubLock        \* no change when TDrop has run
            /\ answered' = IF tkind[t] = "req" THEN answered + 1 ELSE answered
            /\ Log(Who(t), "end")
            /\ UNCH(<<inbox, mpc, vfsW, vfsR, tkind, tleft, nextTask, rev, trev, tver, dver, pubSeq, processed>>)
-Task(t) == TStart(t) \/ TAcquireR(t) \/ TReleaseR(t) \/ TPublish(t) \/ TPubDone(t) \/ TEnd(t)
+Task(t) == TStart(t) \/ TAcquireR(t) \/ TReleaseR(t) \/ TPublish(t) \/ TPubDone(t) \/ TDrop(t) \/ TEnd(t)
 
 Done == inbox = <<>> /\ mpc = "idle" /\ \A t \in Tasks : tpc[t] = "done"
 Next == Main \/ (\E t \in Tasks : Task(t)) \/ (Done /\ UNCHANGED vars)
